@@ -138,6 +138,8 @@ def _members(shape, tier, seed):
     cores = [[min(2, s) for s in shape]]
     if thorough:
         cores += [[1] * N, [min(3, s) for s in shape], [2] * N]
+    elif 1 in shape and N >= 2:
+        cores += [[2] * N]  # a core mode wider than its (singleton) tensor mode: the factor Gram is not a scalar
     seen = []
     for cs in cores:
         if cs in seen:
